@@ -39,7 +39,10 @@ REJECT = [
     ('mixed T / index arithmetic', 'template <typename T> T f(T a, T b) { int n = 3; const T r = a + n; return r; }', T2),
     ('T compared with a literal other than 0/1', 'template <typename T> T f(T a, T b) { if (a > 5) return a; return b; }', T2),
     ('division in T', 'template <typename T> T f(T a, T b) { const T r = a / b; return r; }', T2),
-    ('parameter list changed', 'int f(int a, int c) { return a; }', INT2),
+    ('parameter count changed', 'int f(int a) { return a; }', INT2),
+    ('renamed parameter clashes with a local of the old name', 'int f(int a, int c) { int b = a; return b + c; }', INT2),
+    ('recursive helper', 'int g(int x) { return g(x); }\nint f(int a, int b) { return g(a); }', INT2),
+    ('template helper', 'template <typename U> U g(U x) { return x; }\nint f(int a, int b) { return g(a); }', INT2),
     ('parameter type changed', 'int f(int a, double b) { return a; }', INT2),
     ('two definitions of the function', 'int f(int a, int b) { return a; }\nint f(int a, int b) { return b; }', INT2),
     ('bit operation on an index', 'int f(int a, int b) { return a & b; }', INT2),
@@ -53,6 +56,9 @@ ACCEPT = [
      ['List.range', 'foldl']),
     ('T arithmetic under a store, limits', 'template <typename T> T f(T a, T b) { if (b == std::numeric_limits<T>::min()) return std::numeric_limits<T>::max(); const T r = a - b; return r; }', T2,
      ['dt.wrap', 'dt.lo', 'dt.hi']),
+    ('parameters renamed (bound by position), helper of the same file as a local function, file-scope constant',
+     'const int LIMIT = 7;\nnamespace detail { inline int twice(int v) { return 2 * v; } }\nint f(int x, int y) { if (x > LIMIT) return detail::twice(y); return x; }', INT2,
+     ['let twice := fun (v : Int) =>', '(a > 7)', 'twice b']),
     ('assert is ignored and recorded', 'int f(int a, int b) { assert(a < b); return std::max(a, b) + std::min<int>(a, b); }', INT2,
      ['ignored `assert`s', 'max a b']),
 ]
